@@ -7,7 +7,7 @@ from typing import Any
 from ..model import AnalysisError, Func, Model
 from ..setalg import SetAlg
 from ..symeval import Evaluator, Path
-from ..terms import NONE, Term, has_unknown, mapterm, show, subterms, var
+from ..terms import EMPTY, is_term, NONE, Term, has_unknown, mapterm, show, subterms, var
 
 NXMG = "y0.graph.NxMixedGraph"
 VARIABLE = "y0.dsl.Variable"
@@ -70,6 +70,25 @@ def graph_rewrite(t: Term) -> Term | None:
         if t[2] == "nodes":
             return ("V", g)
         return ("Ed", g) if t[1][2] == "directed" else ("Eu", g)
+    if h == "in" and len(t) == 3 and is_term(t[2]):
+        # networkx adjacency: x among the successors / predecessors / neighbours of u is the edge test itself
+        x, Y = t[1], t[2]
+        G = u = None
+        role = None
+        if Y[0] == "meth" and Y[2] in ("successors", "predecessors", "neighbors") and len(Y[3]) == 1 and not Y[4]:
+            G, u, role = Y[1], Y[3][0], Y[2]
+        elif Y[0] == "meth" and Y[2] == "get" and Y[1][0] == "attr" and Y[1][2] in ("succ", "pred", "adj", "_succ", "_pred", "_adj") and len(Y[3]) == 2 \
+                and (Y[3][1] in (EMPTY, ("tuplelit", ()), ("listlit", ()), ("setlit", ()), ("dictlit", ()))):
+            G, u, role = Y[1][1], Y[3][0], {"succ": "successors", "_succ": "successors", "pred": "predecessors", "_pred": "predecessors"}.get(Y[1][2], "neighbors")
+        elif Y[0] == "index" and Y[1][0] == "attr" and Y[1][2] in ("succ", "pred", "adj", "_succ", "_pred", "_adj"):
+            G, u, role = Y[1][1], Y[2], {"succ": "successors", "_succ": "successors", "pred": "predecessors", "_pred": "predecessors"}.get(Y[1][2], "neighbors")
+        if G is not None:
+            a, b = (x, u) if role == "predecessors" else (u, x)
+            if G[0] == "attr" and G[2] == "undirected" and repr(a) > repr(b):
+                a, b = b, a  # an undirected edge has no orientation
+            return ("truth", ("meth", G, "has_edge", (a, b), ()))
+    if h == "meth" and t[2] == "has_edge" and len(t[3]) == 2 and not t[4] and t[1][0] == "attr" and t[1][2] == "undirected" and repr(t[3][0]) > repr(t[3][1]):
+        return ("meth", t[1], "has_edge", (t[3][1], t[3][0]), ())
     if h == "attr" and t[2] == "nodes" and t[1][0] in ("call", "nxgraph"):
         # the node view of a graph value: the same collection as .nodes()
         return ("V", t[1])
